@@ -12,9 +12,13 @@
    Oracles (Section variables of the generated file, as in Model/Cli.v):
        getGoFile(g.pkg, T)        [getGoFile_o T]  go/types scope lookup + map iteration: Cli.get_go_file o p T
        typeLister.ListTypes()     [ListTypes_o]   the sub-command's own lister: Cli.list_types c fl p
+   TestFile: an *ast.File is represented by what TestFile can learn of it, the name of the file its position
+   lies in ([Some name], the full name as the loader reports it) or nothing at all ([None]: a file without a
+   package clause has no position); file.Pos() and g.pkg.Fset.File(pos) pass that on, tf.Name() reads it
+   (a nil tf panics: PNilDeref), filepath.Base is [path_base]: what follows the last slash (Unix).
    logx.Fatalf(format, ...) ends the process (exit status 1): the translated function stops with
    [Panicked (PErrorf format 0)]; its arguments are not evaluated.  No proofs in this file. *)
-From Coq Require Import List String Bool.
+From Coq Require Import List String Bool Ascii.
 From Shoot Require Import Base.Str Model.Cli.
 Import ListNotations.
 
@@ -29,3 +33,15 @@ Definition set_types (l : list string) (w : sworld) : sworld :=
   mkSW (sw_specified w) l (sw_file w) (sw_fmap w).
 Definition fmap_set (k v : string) (w : sworld) : sworld :=
   mkSW (sw_specified w) (sw_types w) (sw_file w) ((k, v) :: sw_fmap w).
+
+(* ---- TestFile *)
+Definition file_pos (f : option string) : option string := f.
+Definition fset_file (pos : option string) : option string := pos.
+Definition tok_name (name : string) : string := name.
+(* filepath.Base on a Unix path without trailing slash: the part after the last '/' *)
+Fixpoint path_base_aux (s cur : string) : string :=
+  match s with
+  | EmptyString => cur
+  | String c r => if Ascii.eqb c "/"%char then path_base_aux r EmptyString else path_base_aux r (cur ++ String c EmptyString)
+  end.
+Definition path_base (s : string) : string := path_base_aux s EmptyString.
